@@ -22,3 +22,19 @@ package share
 //@   ensures err == nil ==> shareProofValidated(deref(r.Proof), dataRoot)
 //@   loop 1: invariant -1 <= rangeindex && rangeindex < len(rawShares)
 //@   loop 1: invariant forall j int :: 0 <= j && j <= rangeindex ==> bytesEq(rawShares[j], deref(r.Proof).Data[j])
+
+// C19: contract on the declaration of the module's RPC API. Every method carries one of the four
+// permission levels and is at least as restricted as the policy below, which is written from the
+// property text (read-only queries). The table is closed: a method without a policy entry is an undischarged
+// obligation.
+//@ permtable API
+//@   property C19
+//@   closed
+//@   require SharesAvailable public
+//@   require GetShare public
+//@   require GetSamples public
+//@   require GetEDS public
+//@   require GetRow public
+//@   require GetNamespaceData public
+//@   require GetRange public
+//@ end
